@@ -1,12 +1,122 @@
 /- Driver operations of contributor `Align` (translated-code ties): run GENERATED functions so the harness can compare them with the real code.
-   Wired into the cluster drivers by a fall-through; return `none` for names that are not yours. -/
+   Wired into the cluster drivers by a fall-through; return `none` for names that are not yours.
+
+   `gen_align`: runs `GenA.align` / `align_interface` / `align_pca_vect` / `export_aligned` / `get_max_pca_vect` / `get_min_pca_vect` / `pca`
+   (Gen/Align.lean, regenerated from align.py on every run) with the world the harness observed while the real code ran:
+   the object (table + `pdbfile`), whether the argument already was an object, the eigen-decomposition `np.linalg.eigh` returned,
+   the values `norm`, `arctan2`, `arccos`, `cos`, `sin` took (finite tables keyed by the EXACT rational argument; the harness
+   computes the keys with exact fractions the same way the generated code does), `np.pi`.  `np.cov` is the exact sample covariance. -/
 import PdbVerif.Driver.Json
+import PdbVerif.Driver.DCommon
+import PdbVerif.Gen.Align
 
 namespace Driver.ExtAlign
-open Lean Driver
+open Lean Driver Driver.D Py
+
+def errOfTag (s : String) : Py.Err :=
+  if s = "ERR:ValueError" then .valueError else if s = "ERR:TypeError" then .typeError
+  else if s = "ERR:IndexError" then .indexError else if s = "ERR:KeyError" then .keyError
+  else if s = "ERR:FileNotFoundError" then .fileNotFound else .unmodelled s
+
+/-- `np.cov(Y)` of a 3×n array (rows = variables): exact sample covariance, `n − 1` in the denominator -/
+def covExact (Y : Np.PointsT Rat) : Except Py.Err (Mat3 Rat) :=
+  let m := Np.mean0 Y.cols
+  let c := Np.subRow Y.cols m
+  .ok (Np.mdiv (Np.outerSum c c) ((Y.cols.length : Rat) - 1))
+
+def lookup1 (tbl : List (Rat × Rat)) (dflt : Rat) (x : Rat) : Rat :=
+  match tbl.find? (fun p => p.1 = x) with
+  | some p => p.2
+  | none => dflt
+
+def jPairs (j : Json) (k : String) : Except String (List (Rat × Rat)) := do
+  if !hasField j k then return []
+  let a ← jArr j k
+  a.toList.mapM (fun p => do
+    let l ← asRatList p
+    match l with
+    | [x, y] => pure (x, y)
+    | _ => throw s!"{k}: pairs expected")
+
+def dbJ (d : GenA.Rt.Db) : Json :=
+  Json.mkObj [("pdbfile", match d.pdbfile with | some p => strJ p | none => .null), ("table", atomsJ d.atoms)]
+
+def filesJ (l : List GenA.Rt.FileEffect) : Json :=
+  .arr (l.map (fun f => Json.arr #[strJ f.1, atomsJ f.2])).toArray
+
+def strField (j : Json) (k : String) (dflt : String) : String :=
+  match j.getObjVal? k with
+  | .ok (.str s) => s
+  | _ => dflt
+
+def boolField (j : Json) (k : String) (dflt : Bool) : Bool :=
+  match j.getObjVal? k with
+  | .ok (.bool b) => b
+  | _ => dflt
+
+def ratField (j : Json) (k : String) (dflt : Rat) : Except String Rat :=
+  if hasField j k then jRat j k else pure dflt
 
 def op (name : String) (j : Json) : Except String (Option Json) := do
   match name with
+  | "gen_align" =>
+    let func ← jStr j "func"
+    let db ← if hasField j "db" then jAtoms j "db" else pure []
+    let pdbfile : Option Py.Str := match j.getObjVal? "pdbfile" with | .ok (.str s) => some s.toList | _ => none
+    let obj : GenA.Rt.Db := ⟨pdbfile, db⟩
+    let isObj := boolField j "is_object" true
+    let cast : Unit → Option GenA.Rt.Db := fun _ => if isObj then some obj else none
+    let ctor : Unit → Except Py.Err GenA.Rt.Db := fun _ => .ok obj
+    -- the eigen-decomposition observed (or the exception it raised)
+    let eigh : Mat3 Rat → Except Py.Err (Vec3 Rat × Mat3 Rat) ←
+      if hasField j "eig_u" then do
+        let u ← jVec3 j "eig_u"; let V ← jMat3 j "eig_V"
+        pure (fun _ => .ok (u, V))
+      else pure (fun _ => .error (errOfTag (strField j "eig_err" "eigh was not observed")))
+    let normT ← jPairs j "norm"       -- keyed by the x component of the vector (the harness gives one vector)
+    let atanT ← jPairs j "arctan2"    -- keyed by y (first argument)
+    let acosT ← jPairs j "arccos"
+    let cosT ← jPairs j "cos"
+    let sinT ← jPairs j "sin"
+    let pi ← ratField j "pi" 0
+    let norm : Vec3 Rat → Rat := fun v => lookup1 normT 1 v.x
+    let arctan2 : Rat → Rat → Rat := fun y _ => lookup1 atanT 0 y
+    let arccos : Rat → Rat := fun x => lookup1 acosT 0 x
+    let cos : Rat → Rat := fun x => lookup1 cosT 1 x
+    let sin : Rat → Rat := fun x => lookup1 sinT 0 x
+    let axis := strField j "axis" "x"
+    let exportFlag := boolField j "export" false
+    match func with
+    | "align" =>
+      let mask ← jBoolList j "sel"
+      let r := GenA.align cast ctor covExact eigh norm arctan2 arccos cos sin pi () axis exportFlag (fun r => mask.getD r.2 false)
+      pure (some (exceptJ (fun p => Json.mkObj [("db", dbJ p.1), ("files", filesJ p.2)]) r))
+    | "align_interface" =>
+      let kw : GenA.Rt.ContactKw :=
+        { cutoff := ← ratField j "cutoff" ((17 : Rat) / 2), allchains := boolField j "allchains" false,
+          chain1 := (strField j "chain1" "A").toList, chain2 := (strField j "chain2" "B").toList,
+          extend_to_residue := boolField j "extend_to_residue" false, only_backbone_atoms := boolField j "only_backbone_atoms" false,
+          excludeH := boolField j "excludeH" false, return_contact_pairs := boolField j "return_contact_pairs" false }
+      let ord : List (Py.Str × Py.Str × Int) → List (Py.Str × Py.Str × Int) := if boolField j "reverse_sets" false then List.reverse else id
+      let r := GenA.align_interface cast ctor ord covExact eigh norm arctan2 arccos cos sin pi () (strField j "plane" "xy") exportFlag kw
+      pure (some (exceptJ (fun p => Json.mkObj [("db", dbJ p.1), ("files", filesJ p.2)]) r))
+    | "align_pca_vect" =>
+      let v ← jVec3 j "vect"
+      let r := GenA.align_pca_vect norm arctan2 arccos cos sin pi obj v axis
+      pure (some (exceptJ (fun p => Json.mkObj [("db", dbJ p)]) r))
+    | "export_aligned" =>
+      let r := GenA.export_aligned obj
+      pure (some (exceptJ (fun p => Json.mkObj [("files", filesJ p.2)]) r))
+    | "pca" =>
+      -- the matrix handed to `eigh` (= the covariance of what `pca` hands to `np.cov`), and what `pca` returns
+      let X ← jPoints j "xyz"
+      let leak := GenA.pca covExact (fun M => .ok ((⟨0, 0, 0⟩ : Vec3 Rat), M)) X
+      let r := GenA.pca covExact eigh X
+      pure (some (Json.mkObj [("cov", exceptJ (fun p => mat3J p.2) leak),
+                              ("pca", exceptJ (fun p => Json.mkObj [("u", vec3J p.1), ("V", mat3J p.2)]) r),
+                              ("max", exceptJ vec3J (GenA.get_max_pca_vect covExact eigh X)),
+                              ("min", exceptJ vec3J (GenA.get_min_pca_vect covExact eigh X))]))
+    | _ => throw s!"gen_align: unknown func {func}"
   | _ => pure none
 
 end Driver.ExtAlign
